@@ -275,6 +275,7 @@ class Interp:
         self.pure_mode = False
         self.cut_at = None
         self.override_calls = {}
+        self.override_log = []
         self.field_invs = field_invs or {}
 
     # ------------------------------------------------------------------ values
@@ -721,6 +722,7 @@ class Interp:
                     raise Unsupported(f"no type for field {o.cands[0].__name__}.{name}")
                 val = self.make(ft, f"{o.name}.{name}")
                 o.fields[name] = val
+                o.init[name] = val
                 for k in o.cands[0].__mro__:
                     inv = self.field_invs.get((k.__name__, name))
                     if inv is not None:
@@ -798,7 +800,9 @@ class Interp:
             ov = self.overrides[qn + "@rec"]
         if ov is not None:
             self.override_calls[qn] = self.override_calls.get(qn, 0) + 1
-            return ov(self, args, kwargs)
+            r = ov(self, args, kwargs)
+            self.override_log.append((qn, r))
+            return r
         fnode, mod = func_node(live)
         if fnode is None:
             from .builtins_model import call_builtin
@@ -1498,13 +1502,15 @@ class Interp:
             if self.ctx.branch(self.eq(e[0], key)):
                 return e
         present = self.ctx.fresh(f"{d.name}.has#{len(d.entries)}", BoolS)
-        ent = [key, present, None]
+        ent = [key, present, None, present, None]  # [key, present now, value, present at creation, value at creation]
         d.entries.append(ent)
         return ent
 
     def ldict_value(self, d, ent):
         if ent[2] is None:
             ent[2] = self.make(d.vty, f"{d.name}[{len(d.entries)}]")
+            if ent[4] is None:
+                ent[4] = ent[2]
         return ent[2]
 
     # ------------------------------------------------------------------ expressions
